@@ -45,7 +45,7 @@ def run(ctx: Ctx) -> None:
     gatesum.rule_derived_gates(ctx)
     rule_gate_table(ctx)
     ctx.floor("sibling.qindex", 40)
-    ctx.floor("sibling.determinism", 12)
+    ctx.floor("sibling.determinism", 9)
     ctx.floor("sibling.condition", 5)
     ctx.floor("dispatch.cover", 30)
     ctx.assume("the primitives hadamard_gate/phase_gate/cnot_gate, get_two_qubit_controlled_gate, z_measurement_gate, "
